@@ -22,8 +22,10 @@ EXTENDS RoundingDefs, Sequences, FiniteSets
 
 CONSTANTS LegacyImsaak,     \* TRUE = pre-fix get_imsaak (finding D7): only the Imsaak-adjusted run's flag is looked at
           LegacyImsaakFlag, \* TRUE = pre-fix get_imsaak (finding D8): the interval fallback does not flag Imsaak extreme
-          LegacyLateInt     \* TRUE = pre-fix adj_for_ext_lat (finding D9): intervals are applied only after the policy, so
+          LegacyLateInt,    \* TRUE = pre-fix adj_for_ext_lat (finding D9): intervals are applied only after the policy, so
                             \* the placeholder angle-based hour of an interval-defined Fajr / Isha takes part in the validity test
+          LegacyIntFlag     \* TRUE = pre-fix adj_for_int (finding D10): the rewritten Fajr / Isha takes the extreme flag of the
+                            \* entry it overwrites only, not that of the Shurooq / Maghrib it is derived from
 
 Imsaak == 1  Fajr == 2  Shurooq == 3  Dhuhr == 4  Asr == 5  Maghrib == 6  Isha == 7
 P6 == 2..7
@@ -132,12 +134,14 @@ AdjForInt(h, P) ==
     IF P.pol \in IntervalConsumers THEN h
     ELSE LET h1 == IF P.fi # 0
                    THEN [h EXCEPT ![Fajr] = IF h[Shurooq].ok
-                                            THEN Cell(h[Shurooq].v - P.fi, h[Fajr].ok /\ h[Fajr].x)
+                                            THEN Cell(h[Shurooq].v - P.fi,
+                                                      (h[Fajr].ok /\ h[Fajr].x) \/ (~LegacyIntFlag /\ h[Shurooq].x))
                                             ELSE Inv]
                    ELSE h
          IN IF P.ii # 0
             THEN [h1 EXCEPT ![Isha] = IF h1[Maghrib].ok
-                                      THEN Cell(h1[Maghrib].v + P.ii, h1[Isha].ok /\ h1[Isha].x)
+                                      THEN Cell(h1[Maghrib].v + P.ii,
+                                                (h1[Isha].ok /\ h1[Isha].x) \/ (~LegacyIntFlag /\ h1[Maghrib].x))
                                       ELSE Inv]
             ELSE h1
 
